@@ -53,6 +53,8 @@ CONSTANTS Classes,      \* top level classes to enumerate
           DxCap,        \* |dx_a| <= Min(L_a + DxExtra, DxCap)
           DxExtra,      \* 0 | 1: also displacements / boxes that exceed the lattice by one
           EnlargeSet,   \* factors for enlarge_mps_unit_cell (applied once to built infinite lattices)
+          EnlargeVia,   \* subset of {"inplace", "copy", "segment"}: on the lattice itself, on lat.copy(), or through
+                        \* lat.extract_segment(enlarge=f) (an enlarged copy with bc_MPS = "segment")
           GroupSet,     \* group sizes for with_grouped_sites
           MultiMod, MultiRes,   \* sampling of the multi-coupling catalogue
           BFMaxN,       \* brute-force theorems evaluated when N <= BFMaxN
@@ -251,7 +253,7 @@ Cfg0 == [cls |-> "none", base |-> "none", Ls |-> <<>>, nleg |-> 0, nsp |-> 1, re
          hcells |-> 0, bc |-> <<>>, shift |-> <<>>, bcmps |-> "finite", ord |-> [kind |-> "none"],
          \* derived lattices: `parent` is the case the lattice was derived from by enlarge_mps_unit_cell(enl)
          \* or with_grouped_sites (groups of grp sites, gnu groups); Ls, removed, added, hcells describe the result
-         enl |-> 1, grp |-> 0, gnu |-> 0, parent |-> <<>>]
+         enl |-> 1, via |-> "none", grp |-> 0, gnu |-> 0, parent |-> <<>>]
 
 D == Len(cfg.Ls)
 Ls == cfg.Ls
@@ -555,6 +557,8 @@ Build ==
 \* the order is repeated f times, shifted by Lx each time.  For the helix the number of cells is multiplied and
 \* the underlying regular lattice only grows if the new unit cell does not fit / divide it any more.
 \* `reorder` = what ordering(order) of the enlarged lattice means: the named order of the enlarged shape.
+\* `porder` = the order of the lattice the new one was derived from: deriving a lattice from a copy must leave
+\* the original (and the lattices it is built on) as they were -- in the spec the parent state simply persists.
 ReorderOf(c, regLs) ==
     LET regnu == BaseNu(c.base, c.nleg)
         reg == OrderOf(c.base, regLs \o <<regnu>>, c.ord)
@@ -566,8 +570,9 @@ ReorderOf(c, regLs) ==
 EnlargeMPSUnitCell ==
     /\ stage = "built"
     /\ cfg.enl = 1 /\ cfg.cls # "Grouped" /\ cfg.bcmps = "infinite" /\ cfg.ord.kind # "perm"
-    /\ \E f \in EnlargeSet :
+    /\ \E f \in EnlargeSet, via \in EnlargeVia :
          LET newLs == [Ls EXCEPT ![1] = @ * f]
+             mps == IF via = "segment" THEN "segment" ELSE cfg.bcmps
              ShiftC(l, i) == [l EXCEPT ![1] = @ + i * Ls[1]]
              Copies(sq) == ConcatAll([i \in 1..f |-> [k \in 1..Len(sq) |-> ShiftC(sq[k], i - 1)]])
          IN IF cfg.cls = "Helical"
@@ -575,18 +580,20 @@ EnlargeMPSUnitCell ==
                      hc == cfg.hcells * f
                      grow == hc > cells \/ cells % hc # 0
                      newfull == IF grow THEN Copies(full) ELSE full
-                     c == [cfg EXCEPT !.parent = cfg, !.enl = f, !.hcells = hc, !.Ls = IF grow THEN newLs ELSE Ls]
+                     c == [cfg EXCEPT !.parent = cfg, !.enl = f, !.via = via, !.bcmps = mps, !.hcells = hc,
+                                      !.Ls = IF grow THEN newLs ELSE Ls]
                  IN /\ cfg' = c
                     /\ full' = newfull
                     /\ order' = SubSeq(newfull, 1, hc * RegNu)
-                    /\ last' = [op |-> "build", reorder |-> ReorderOf(c, c.Ls)]
-            ELSE LET c == [cfg EXCEPT !.parent = cfg, !.enl = f, !.Ls = newLs, !.removed = Copies(cfg.removed),
+                    /\ last' = [op |-> "build", reorder |-> ReorderOf(c, c.Ls), porder |-> order]
+            ELSE LET c == [cfg EXCEPT !.parent = cfg, !.enl = f, !.via = via, !.bcmps = mps, !.Ls = newLs,
+                                      !.removed = Copies(cfg.removed),
                                       !.added = ConcatAll([i \in 1..f |-> [k \in 1..Len(cfg.added) |->
                                                    [lat |-> ShiftC(cfg.added[k].lat, i - 1), where |-> cfg.added[k].where]]])]
                  IN /\ cfg' = c
                     /\ order' = Copies(order)
                     /\ full' = Copies(order)
-                    /\ last' = [op |-> "build", reorder |-> ReorderOf(c, newLs)]
+                    /\ last' = [op |-> "build", reorder |-> ReorderOf(c, newLs), porder |-> order]
     /\ stage' = "built"
 
 \* with_grouped_sites: "a trivial lattice with the grouped_sites as sites and the same bc_MPS": one unit cell
@@ -604,7 +611,7 @@ GroupSites ==
                /\ order' = ord
                /\ full' = ord
     /\ stage' = "built"
-    /\ last' = [op |-> "build"]
+    /\ last' = [op |-> "build", porder |-> order]
 
 \* ---- queries (one result state each)
 Done(l) == /\ stage = "built"
